@@ -729,6 +729,23 @@ class C16(BbProp):
             "access, type from the outcome, key = resolved location, values) and the stream must equal the last `max` "
             "of old ++ new; non-trivial = the size limit was hit and records of >= 4 different types were produced")
 
+    def generate(self, rng, tier):
+        out = BbProp.generate(self, rng, tier)
+        if tier != "search":
+            # OUTSIDE THE MODEL's value universe: values whose type derives from a primitive type (a str subclass that
+            # carries attributes). They are not bare primitives: a writer fetching one is ACCESSED, not READ.
+            vals = bb_gen.VALS
+            bb_gen.VALS = vals + ["l:x", "l:y", "l:x{p=i:1}", "l:x", "l:y"]
+            try:
+                for i in range(max(150, len(out) // 8)):
+                    sc = bb_gen.gen_scenario(rng, "%s_%s_sub_%d" % (self.pid, tier[0], i), strict=self.strict,
+                                             stream=self.stream, statics=self.statics, max_ops=40, sset=self.sset)
+                    sc.meta["impl_only"] = True
+                    out.append(sc)
+            finally:
+                bb_gen.VALS = vals
+        return out
+
     def expected(self, prev, o):
         """records this op should append, from the pre-state and the observed result"""
         t = o.op.split()
@@ -744,7 +761,7 @@ class C16(BbProp):
 
         def rv(loc):
             v = S[loc]
-            return "o" if v.startswith("o{") else v
+            return "o" if v.startswith("o{") else "l" if v.startswith("l:") else v
 
         def read_rec(key):
             a = absname(cl["ns"], key)
@@ -755,12 +772,12 @@ class C16(BbProp):
                 return []
             if loc not in S:
                 return [(loc, cs, "NO_KEY", "-", "-")]
-            prim = not (S[loc].startswith("o{") or S[loc].startswith("s:") or S[loc] == "n")
+            prim = not (S[loc].startswith("o{") or S[loc].startswith("s:") or S[loc] == "n" or S[loc].startswith("l:"))
             typ = "READ" if (a in cl["r"] or prim) else "ACCESSED"
             return [(loc, cs, typ, "-", rv(loc))]
 
         def val_rec(v):
-            return "o" if v.startswith("o{") else v
+            return "o" if v.startswith("o{") else "l" if v.startswith("l:") else v
 
         if op in ("getattr", "get", "exists"):
             return read_rec(split_name(t[2])[0] if op != "getattr" else t[2])
